@@ -983,10 +983,53 @@ struct MgrCase {
     std::function<void(TestClient &, QObject *, int *)> run2;   // same request again, on the manager added by run
 };
 
+// what a waiter was handed: "ok[:id=<stanza id>]" | "err:stanza:<condition>" | "err:send:<kind>[:cancelled]" | "err:other" | "value"
+static std::vector<std::string> g_delivered;
+
+template<typename T>
+static std::string describeResult(T &r)
+{
+    if constexpr (requires { std::get_if<QXmppError>(&r); }) {
+        if (auto *e = std::get_if<QXmppError>(&r)) {
+            if (e->isStanzaError()) { auto se = e->template value<QXmppStanza::Error>(); return "err:stanza:" + std::to_string(se ? int(se->condition()) : -1); }
+            if (auto se = e->template value<QXmpp::SendError>()) return "err:send:" + std::to_string(int(*se)) + (e->description.contains(QL("cancelled")) ? ":cancelled" : "");
+            return "err:other";
+        }
+        return std::visit([](auto &v) -> std::string {
+            using V = std::decay_t<decltype(v)>;
+            if constexpr (std::is_same_v<V, QDomElement>) return "ok:id=" + S(v.attribute(QStringLiteral("id")));
+            else if constexpr (requires { { v.id() } -> std::convertible_to<QString>; }) return "ok:id=" + S(v.id());
+            else return "ok";
+        }, r);
+    } else {
+        return "value";
+    }
+}
+
 template<typename T>
 static void countTask(QXmppTask<T> task, QObject *ctx, int *count)
 {
-    task.then(ctx, [count](T &&) { (*count)++; });
+    task.then(ctx, [count](T &&r) { (*count)++; g_delivered.push_back(describeResult(r)); });
+}
+
+// the value each waiter got must be the one the history calls for: the error the entity returned, the cancellation error when the
+// session ended unanswered, and for a result the response to THIS request (its id) — never another path's value
+static std::string wrongValue(const std::string &answer, const QString &lastId)
+{
+    static const std::string stanzaErr = "err:stanza:" + std::to_string(int(QXmppStanza::Error::ServiceUnavailable));
+    static const std::string cancelled = "err:send:" + std::to_string(int(QXmpp::SendError::Disconnected)) + ":cancelled";
+    for (auto &d : g_delivered) {
+        bool ok;
+        if (answer == "error") ok = d == stanzaErr;
+        else if (answer == "silence-then-disconnect" || answer == "reply-from-stranger-then-disconnect") ok = d == cancelled;
+        else {
+            ok = d != cancelled && d.rfind("err:stanza", 0) != 0 && d.rfind("err:send", 0) != 0;
+            auto p = d.find(":id=");
+            if (ok && p != std::string::npos && !lastId.isEmpty()) ok = d.substr(p + 4) == S(lastId);
+        }
+        if (!ok) return d;
+    }
+    return "";
 }
 
 template<typename M, typename... A>
@@ -1182,6 +1225,8 @@ static void runManagerLayer()
                 TestClient c(QStringLiteral("me@own.org/res"));
                 if (mc.e2ee) c.setEncryptionExtension(&e2ee);
                 int handled = 0;
+                QString lastId;
+                g_delivered.clear();
                 mc.run(c, &ctx, &count);
                 // answer every request the API sends (some APIs chain several), at most 6 rounds
                 while (a != "silence-then-disconnect" && rounds < 6) {
@@ -1190,6 +1235,7 @@ static void runManagerLayer()
                     if (k >= c.sent.size()) break;
                     handled = k + 1; rounds++;
                     QString id = attrOf(c.sent[k], QStringLiteral("id")), to = attrOf(c.sent[k], QStringLiteral("to"));
+                    lastId = id;
                     QString from = a == "reply-from-stranger-then-disconnect" ? QStringLiteral(" from='eve@evil.org/x'") : (to.isEmpty() ? QString() : QL(" from='") + to + QL("'"));
                     QString head = QL("<iq xmlns='jabber:client' id='") + id + QL("'") + from + QL(" to='me@own.org/res'");
                     int before = count;
@@ -1206,6 +1252,13 @@ static void runManagerLayer()
                     else c.inject(head + QL(" type='result'/>"));
                     if (count != before) oracleFail("C07:mgr:" + mc.name + ":duplicate-reply-completes-again", mc.name + " " + a);
                 }
+                auto checkValues = [&](const char *phase) {
+                    std::string bad = wrongValue(a, lastId);
+                    if (!bad.empty()) oracleFail("C07:mgr:" + mc.name + ":" + a + ":wrong-value", "manager layer: " + mc.name + " answered with " + a + " (" + phase + "): a waiter was handed " + bad + " (last answered request id " + S(lastId) + ")");
+                    else if (!g_delivered.empty()) oraclePass()++;
+                    g_delivered.clear();
+                };
+                if (a == "empty-result" || a == "error" || a == "unexpected-payload") checkValues("first call");
                 // the same API once more on the same manager (stale per-manager state must not swallow it)
                 if (a == "empty-result" || a == "error" || a == "unexpected-payload") {
                     int count2 = 0;
@@ -1218,6 +1271,7 @@ static void runManagerLayer()
                         if (k >= c.sent.size()) break;
                         handled = k + 1; r2++;
                         QString id = attrOf(c.sent[k], QStringLiteral("id")), to = attrOf(c.sent[k], QStringLiteral("to"));
+                        lastId = id;
                         QString head = QL("<iq xmlns='jabber:client' id='") + id + QL("'") + (to.isEmpty() ? QString() : QL(" from='") + to + QL("'")) + QL(" to='me@own.org/res'");
                         if (a == "error") c.inject(head + QL(" type='error'><error type='cancel'><service-unavailable xmlns='") + Q(NS_STANZA) + QL("'/></error></iq>"));
                         else if (a == "unexpected-payload") c.inject(head + QL(" type='result'><junk xmlns='urn:verif:junk'><x y='1'>text</x></junk></iq>"));
@@ -1225,7 +1279,9 @@ static void runManagerLayer()
                         QCoreApplication::processEvents();
                     }
                     if (mc.run2) {
+                        checkValues("second call");
                         c.closeSession(false);
+                        g_delivered.clear();
                         if (count2 != expected) {
                             bool mamKnown = mc.name == "mam-e2ee:retrieveMessages" && count2 == 0 && a != "error";
                             oracleFail(mamKnown ? "C07:mam:e2ee-empty-page-never-finishes" : "C07:mgr:" + mc.name + ":" + a + ":second-call-completions=" + std::to_string(count2),
@@ -1236,6 +1292,7 @@ static void runManagerLayer()
                 // the session ends and cannot be resumed: whatever is still pending must complete now
                 c.closeSession(false);
                 QCoreApplication::processEvents();
+                if (a == "silence-then-disconnect" || a == "reply-from-stranger-then-disconnect") checkValues("session end");
                 int atClose = count;
                 if (atClose != expected) {
                     std::string key = mc.name == "mam-e2ee:retrieveMessages" && count == 0 && (a == "empty-result" || a == "unexpected-payload")
